@@ -12,7 +12,6 @@ import (
 	"github.com/prometheus/prometheus/model/labels"
 	"github.com/prometheus/prometheus/promql/parser"
 
-	"github.com/thanos-community/promql-engine/execution/function"
 	"github.com/thanos-community/promql-engine/execution/model"
 	"github.com/thanos-community/promql-engine/execution/parse"
 )
@@ -236,8 +235,8 @@ func makeAccumulatorFunc(expr parser.ItemType) (newAccumulatorFunc, error) {
 	case "stddev":
 		return func() *accumulator {
 			var count float64
-			var mean, cMean float64
-			var aux, cAux float64
+			var mean float64
+			var aux float64
 			var hasValue bool
 			return &accumulator{
 				AddFunc: func(v float64) {
@@ -246,30 +245,30 @@ func makeAccumulatorFunc(expr parser.ItemType) (newAccumulatorFunc, error) {
 					if count == 1 {
 						// Like the reference engine, the first sample only sets the mean
 						// (so that a single NaN or Inf member has a deviation of zero).
-						mean, cMean = v, 0
+						mean = v
 						return
 					}
-					delta := v - (mean + cMean)
-					mean, cMean = function.KahanSumInc(delta/count, mean, cMean)
-					aux, cAux = function.KahanSumInc(delta*(v-(mean+cMean)), aux, cAux)
+					// Same update as the reference engine (no compensation terms, which turn
+					// into NaN when the sum of squares overflows).
+					delta := v - mean
+					mean += delta / count
+					aux += delta * (v - mean)
 				},
-				ValueFunc: func() float64 { return math.Sqrt((aux + cAux) / count) },
+				ValueFunc: func() float64 { return math.Sqrt(aux / count) },
 				HasValue:  func() bool { return hasValue },
 				Reset: func(_ float64) {
 					hasValue = false
 					count = 0
 					mean = 0
-					cMean = 0
 					aux = 0
-					cAux = 0
 				},
 			}
 		}, nil
 	case "stdvar":
 		return func() *accumulator {
 			var count float64
-			var mean, cMean float64
-			var aux, cAux float64
+			var mean float64
+			var aux float64
 			var hasValue bool
 			return &accumulator{
 				AddFunc: func(v float64) {
@@ -278,22 +277,22 @@ func makeAccumulatorFunc(expr parser.ItemType) (newAccumulatorFunc, error) {
 					if count == 1 {
 						// Like the reference engine, the first sample only sets the mean
 						// (so that a single NaN or Inf member has a deviation of zero).
-						mean, cMean = v, 0
+						mean = v
 						return
 					}
-					delta := v - (mean + cMean)
-					mean, cMean = function.KahanSumInc(delta/count, mean, cMean)
-					aux, cAux = function.KahanSumInc(delta*(v-(mean+cMean)), aux, cAux)
+					// Same update as the reference engine (no compensation terms, which turn
+					// into NaN when the sum of squares overflows).
+					delta := v - mean
+					mean += delta / count
+					aux += delta * (v - mean)
 				},
-				ValueFunc: func() float64 { return (aux + cAux) / count },
+				ValueFunc: func() float64 { return aux / count },
 				HasValue:  func() bool { return hasValue },
 				Reset: func(_ float64) {
 					hasValue = false
 					count = 0
 					mean = 0
-					cMean = 0
 					aux = 0
-					cAux = 0
 				},
 			}
 		}, nil
